@@ -15,7 +15,7 @@ TECHNIQUE = "bounded exhaustive enumeration of codec layouts/values/orders again
 RULE = ("int<->bytes: sizes 0..9 and 16..257 x (all values for size<=2, boundary alphabet above); single fields: every contiguous mask of "
         "width 1..72 (and 152, 256, 264, 512) at bit alignment 0..7 x offsets {0,1,5} x trailing bytes {0,2} x prior content {00,FF,A5} outside the field "
         "x values (exhaustive up to the tier's width, alphabet above); 2 and 3 non-overlapping fields x all supply orders; split fields (two runs of bits with a hole, a second field living in the hole) x 4x4x5 run widths x 4 alignments; blobs "
-        "b/w/dw x lengths 0..4 x offsets, alone and mixed with a bit field, the blob given as bytearray / bytes / memoryview / list / tuple; 2 and 3 blobs of every kind combination plus a bit field in every supply order; layout entries spelled as lists and as tuples (every single-field case both ways, multi-field layouts mixed), blob kind strings as literals and built at run time. A case is non-trivial when the value or the prior "
+        "b/w/dw x lengths 0..4 x offsets, alone and mixed with a bit field, the blob given as bytearray / bytes / memoryview / list / tuple / array('B') and as typed buffers with wider items (array 'H' / 'I', memoryview casts); 2 and 3 blobs of every kind combination plus a bit field in every supply order; layout entries spelled as lists and as tuples (every single-field case both ways, multi-field layouts mixed), blob kind strings as literals and built at run time. A case is non-trivial when the value or the prior "
         "content is non-zero; distinct = distinct (kind, layout, value, prior, order) tuples.")
 ASSUMPTIONS = [
     "oracle: vf/spec/bits.py (int.from_bytes of the whole buffer, one shift, one mask)",
@@ -177,7 +177,21 @@ def run_case(case, obs=None):
             out.append(("encode_blob", "%s len=%d off=%d order=%r prior=%s -> %s expected %s"
                         % (bk, length, offset, order, bytes(prior).hex(), bytes(buf).hex(), exp.hex())))
         # the blob handed over in other containers: bytes, a memoryview, a list / tuple of ints
-        for cname, conv in (("bytes", bytes), ("memoryview", memoryview), ("list", list), ("tuple", tuple)):
+        import array
+
+        def typed(code):
+            def conv(v):
+                a = array.array(code)
+                a.frombytes(v)
+                return a
+            return conv
+        convs = [("bytes", bytes), ("memoryview", memoryview), ("list", list), ("tuple", tuple), ("array('B')", typed("B"))]
+        # typed buffers whose items are wider than a byte (the natural container of word blobs): same raw bytes, fewer items
+        if nbytes and nbytes % 2 == 0:
+            convs += [("array('H')", typed("H")), ("memoryview cast to 'H'", lambda v: memoryview(bytearray(v)).cast("H"))]
+        if nbytes and nbytes % 4 == 0:
+            convs += [("array('I')", typed("I")), ("memoryview cast to 'I'", lambda v: memoryview(bytearray(v)).cast("I"))]
+        for cname, conv in convs:
             d2 = dict(data, blob=conv(value))
             buf2 = bytearray(prior)
             try:
